@@ -304,14 +304,10 @@ fn run_single_program(
                 libc::signal(libc::SIGQUIT, libc::SIG_DFL);
             }
 
-            // close pipes unrelated to current child (left side)
-            if idx_cmd > 0 {
-                for i in 0..idx_cmd - 1 {
-                    let fds = pipes[i];
-                    libs::close(fds.0);
-                    libs::close(fds.1);
-                }
-            }
+            // pipes on the left side need no closing here: the parent has
+            // already closed them (both ends of pipes[..idx_cmd - 1] and the
+            // write end of pipes[idx_cmd - 1]) before forking this child, and
+            // their numbers may have been reused (e.g. by the here-string pipe).
             // close pipes unrelated to current child (right side)
             for i in idx_cmd + 1..pipes_count {
                 let fds = pipes[i];
@@ -347,7 +343,6 @@ fn run_single_program(
                 let fds_prev = pipes[idx_cmd - 1];
                 libs::dup2(fds_prev.0, 0);
                 libs::close(fds_prev.0);
-                libs::close(fds_prev.1);
             }
             if idx_cmd < pipes_count {
                 let fds = pipes[idx_cmd];
